@@ -295,10 +295,12 @@ func MonC16() *Mon {
 // Necessary condition only: which proposal it holds, and what it did with it, is judged elsewhere.
 func MonRecoveryCatchUp(propName string) *Mon {
 	refusing := map[*Node]bool{} // before the call: view changing and not (more than F committed or lost)
+	free := map[*Node]bool{}     // before the call: undecided and not locked by an own commit or pre-commit
 	return &Mon{Name: propName + "-catchup",
 		BeforeCall: func(n *Node, c *Call) {
 			d := n.D
 			refusing[n] = false
+			free[n] = d.Validators != nil && !d.BlockSent() && !d.CommitSent() && !d.PreCommitSent()
 			if d.Validators == nil || c.Kind != CReceive || !d.ViewChanging() {
 				return
 			}
@@ -319,6 +321,24 @@ func MonRecoveryCatchUp(propName string) *Mon {
 				return
 			}
 			d, w := n.D, n.W
+			// The change views of a recovery message tagged with a higher view are handed over first: when they come
+			// from M distinct validators and all ask for a view above the node's, a node that is free to move has
+			// left its view when the call is over (it may stop below the highest view asked for: entering a view
+			// starts a new count).
+			if free[n] && c.P.Ht == c.PreHeight && d.BlockIndex == c.PreHeight && c.P.V > c.PreView && int(c.P.Idx) < len(d.Validators) {
+				asked := map[uint16]bool{}
+				for _, e := range c.P.Body.(*vt.RecoveryMessage).GetChangeViews(c.P, d.Validators) {
+					if cv := e.(Payload); int(cv.Idx) < len(d.Validators) && cv.Ht == c.PreHeight && cv.Body.(*vt.ChangeView).NewView > c.PreView {
+						asked[cv.Idx] = true
+					}
+				}
+				if len(asked) >= refM(len(d.Validators)) {
+					w.Stat("catchup_recovery_with_m_changeviews")
+					if d.ViewNumber == c.PreView {
+						w.Fail(propName, fmt.Sprintf("node %d at (%d,%d): a recovery message for view %d carrying change views of %d distinct validators (M=%d) for higher views was processed, yet the node stays in its view", n.ID, d.BlockIndex, d.ViewNumber, c.P.V, len(asked), refM(len(d.Validators))), "recovery-view-not-entered")
+					}
+				}
+			}
 			if d.BlockIndex != c.P.Ht || d.ViewNumber != c.P.V || d.BlockSent() {
 				return
 			}
